@@ -7,7 +7,7 @@ from vlib.qtyops import num_value, frs
 PID = 'C15'
 PROPERTY_FILE = 'Properties/C15.v'
 # generated model parts (translate/) this property's model / proofs really depend on
-GEN_DEPS = []
+GEN_DEPS = ['StateInventory']
 MODEL_TARGETS = R.MODEL_TARGETS
 PROOF_TARGETS = ['Proofs/C15Proofs.vo', 'Proofs/C02Dim.vo']
 COQ_HEADER = R.COQ_HEADER
